@@ -783,9 +783,12 @@ class BuiltinMixin:
         nobl = len(self.obligations)
         # guard: facts derived under 0 <= i < n
         p.solver.push()
+        p.qf.push()
         guard = z3.And(0 <= i, i < n)
         p.pc.append(guard)
         p.solver.add(guard)
+        p.qf.add(guard)
+        p.qf_ver += 1
         pos_before = p.pos
         p._counter_at_comp = p.counter
         saved_caches = (set(p.__dict__.get('_facts', set())), dict(p.__dict__.get('_divmod', {})))
@@ -794,8 +797,12 @@ class BuiltinMixin:
         try:
             item = self.iter_item(ctx, i)
             self.assign(gen.target, item)
-            conds = [self.truthy(self.eval(c)) for c in gen.ifs]
-            val = self.eval(comp.elt)
+            # and/or chains in the filter / element are evaluated without forking where possible
+            conds = [self.cond(c, force=True) for c in gen.ifs]
+            if fn in (any, all) and isinstance(comp.elt, (ast.BoolOp, ast.UnaryOp)):
+                val = SV(BOOL, self.cond(comp.elt, force=True))
+            else:
+                val = self.eval(comp.elt)
             val = self.force(val) if val.kind.name == 'opt' and fn in (any, all) else val
             tv = self.truthy(val) if fn in (any, all) else None
         finally:
@@ -808,6 +815,8 @@ class BuiltinMixin:
         facts = p.pc[mark + 1:]
         del p.pc[mark:]
         p.solver.pop()
+        p.qf.pop()
+        p.qf_ver += 1
         p._facts, p._divmod = saved_caches
         p.fact_ids, p.str_defs, p.multipliers = saved_more
         # generalise over i: every fresh constant introduced while evaluating the
@@ -839,6 +848,16 @@ class BuiltinMixin:
             if hook:
                 hook(S, n, i, term, ctx)
             return SV(INT, S(n))
+        if fn in (max, min) and not conds and val.kind in (INT, BOOL):
+            # max(elt(x) for x in xs): ValueError on an empty iterable, else the bound that is attained
+            if not self.term_mode and not p.choose(n > 0):
+                self.raise_(ValueError, f'{fn.__name__}() of an empty iterable')
+            vt = gen_(self.as_int(val))
+            m = p.fresh('ext', I)
+            w = p.fresh('extat', I)
+            p.assume(z3.ForAll([i], z3.Implies(guard, (vt <= m) if fn is max else (vt >= m))))
+            p.assume(z3.And(0 <= w, w < n, z3.substitute(vt, (i, w)) == m))
+            return SV(INT, m)
         if fn is list and it.kind.is_list and val.kind not in (CONST, PYTUPLE, NONE) and val.t is not None:
             # [elt(x) for x in xs if cond(x)]: an order-preserving selection of xs.
             # f : result index -> source index (strictly increasing, onto the selected ones)
